@@ -463,6 +463,25 @@ func scenarioC12(r *Run) {
 				q.Id = uint16(c.Pick(65536, "id"))
 				q.RecursionDesired = true
 				q.Question = []mdns.Question{{Name: name, Qtype: c12types[c.Pick(len(c12types), "qtype")], Qclass: []uint16{mdns.ClassINET, mdns.ClassCHAOS, mdns.ClassANY}[c.Pick(3, "qclass")]}}
+				if c.Chance(1, 6, "question-count") {
+					// a DNS query need not carry exactly one question
+					switch c.Pick(4, "questions") {
+					case 0:
+						q.Question = nil
+						kind += "+no-question"
+					default:
+						extraNames := []string{".", "a.", Domain + ".", "www." + Domain + ".", name}
+						for k := 1 + c.Pick(3, "more-questions"); k > 0; k-- {
+							qq := mdns.Question{Name: extraNames[c.Pick(len(extraNames), "more-name")], Qtype: c12types[c.Pick(len(c12types), "qtype")], Qclass: mdns.ClassINET}
+							if c.Chance(1, 2, "prepend") {
+								q.Question = append([]mdns.Question{qq}, q.Question...)
+							} else {
+								q.Question = append(q.Question, qq)
+							}
+						}
+						kind += "+multi-question"
+					}
+				}
 				data, err := q.Pack()
 				if err != nil {
 					r.Count("unpackable_generated_name")
@@ -478,7 +497,7 @@ func scenarioC12(r *Run) {
 					from = clientAddr
 				}
 				kinds = append(kinds, kind)
-				r.Logf("inject query %q type %d from %s (%s)", truncate(name, 80), q.Question[0].Qtype, from, kind)
+				r.Logf("inject query %q (%d questions) from %s (%s)", truncate(name, 80), len(q.Question), from, kind)
 				r.AddShape("q:" + kind)
 				synctest.Wait()
 				runtime.ReadMemStats(&msBefore)
@@ -487,7 +506,7 @@ func scenarioC12(r *Run) {
 				runtime.ReadMemStats(&msAfter)
 				r.Count("injected_queries")
 				if delta := msAfter.TotalAlloc - msBefore.TotalAlloc; delta > 64<<20 {
-					r.FailSig("unbounded-allocation", "kind="+kind, "one injected query (%q, type %d, %s) made the server allocate %d bytes", truncate(name, 120), q.Question[0].Qtype, kind, delta)
+					r.FailSig("unbounded-allocation", "kind="+kind, "one injected query (%q, %d questions, %s) made the server allocate %d bytes", truncate(name, 120), len(q.Question), kind, delta)
 				}
 			}})
 		}
